@@ -9,7 +9,7 @@ ERRNOS = [errno.EIO, errno.ENOSPC, errno.EACCES]
 def scenarios(rng, tier):
     out = []
     kinds = ["dir-link", "dir-copy", "xdev-link", "recommit", "pipeline"]
-    n = 4 if tier == "quick" else 20
+    n = 5 if tier == "quick" else 20
     for i in range(n):
         kind = kinds[i % len(kinds)]
         if kind == "pipeline":
@@ -104,7 +104,7 @@ def fault_stream(R, dud, drv, stepper, rng, tier, findings):
                                 viol.append(("tolerated-differs", "the fault at call %d was tolerated (exit 0) but: %s" % (k, t)))
                         unknown = []
                         for tag, text in viol:
-                            kf = [f for f in findings if f.get("matcher") == "fault-at-link-step" and (tag.startswith("retry-differs") or tag == "lost")
+                            kf = [f for f in findings if f.get("matcher") == "fault-at-link-step" and (tag.startswith("retry-differs") or tag == "lost" or (tag == "retry-failed" and "file does not exist" in text))
                                   and (failed_call.startswith("symlink W:") or failed_call.startswith("unlink W:")
                                        or (failed_call.startswith("chmod O:") and sc_by_k.get(k - 1, "").startswith("rename W:")))]
                             if kf:
